@@ -170,7 +170,11 @@ class Gen:
         if k in ('bytes', 'string'):
             n = hint if hint is not None else rng.choice([0, 1, 2, 3, 4, 5, 11, 40])
             if k == 'string':
-                return ''.join(rng.choice('abcXYZ 019_-.') for _ in range(n))
+                if isinstance(hint, str):
+                    return hint
+                # text is UTF-8 on the wire: the length prefix counts BYTES, so characters of 2, 3 and 4 bytes are mixed in
+                alpha = 'abcXYZ 019_-.' if (hint is not None or rng.random() < 0.5) else 'abZ 9.\u00e9\u00fc\u20ac\u0416\U0001d11e'
+                return ''.join(rng.choice(alpha) for _ in range(n))
             b = bytes(rng.getrandbits(8) for _ in range(n))
             # a value that happens to start with a known constructor id would be auto-parsed: avoid (outside the domain)
             return b
